@@ -1083,6 +1083,11 @@ fn assign_scaled(c: &mut Case) {
     }
 }
 
+/// parameter builders keep every configured value whatever the order of the `with_*` steps
+fn builders_fam(c: &mut Case) {
+    scverif::builders::case(c, "C12")
+}
+
 fn main() {
     let args: Vec<String> = std::env::args().collect();
     if args.len() >= 3 && args[1] == "--probe-build" {
@@ -1102,6 +1107,7 @@ fn main() {
             "debugging aid: with C12_TRACE set every case prints its input to stderr before the library is called (to identify an input that aborts the process)",
         ],
         families: vec![
+            Family::new("builders", 300, 3000, builders_fam),
             Family::new("fit_continuous", 1200, 36000, fit_continuous),
             Family::new("fit_lattice", 1200, 36000, fit_lattice),
             Family::new("fit_clustered", 1000, 30000, fit_clustered),
